@@ -165,7 +165,7 @@ def ob_direct(nops):
         real = CA(COMPILER, [])
         ref = []
         for i in range(nops):
-            op = choose(5, 'op%d' % i)
+            op = choose(6, 'op%d' % i)
             if op == 0:
                 b = [mkarg('a%d' % i, DK)]
                 real += list(b); ref = r_iadd(ref, b)
@@ -177,6 +177,14 @@ def ob_direct(nops):
                 real.extend_direct(list(b))
                 for a in b: ref = r_direct(ref, a)
                 cover('extend_direct')
+            elif op == 4:
+                # extend_preserving_lflags: -l / -L arguments of the batch are appended as they are (no de-dup, no reordering), after the others
+                b = [mkarg('%s%d' % (t, i), [1, 5, 7, 0]) for t in 'ab']
+                real.extend_preserving_lflags(list(b))
+                lf = [a for a in b if sw(a, ('-l', '-L')) and not isin(a, CA.always_dedup_args)]
+                ref = r_iadd(ref, [a for a in b if not any(a is x for x in lf)])
+                for a in lf: ref = r_direct(ref, a)
+                cover('preserving_lflags')
             else:
                 same_list(list(real), ref, 'read'); cover('read')
         same_list(list(real), ref, 'final')
@@ -214,8 +222,8 @@ def obligations(tier):
         ks = SMALL if n == 3 else [0, 2, 5]
         out.append(Obligation('sequence[%d]' % n, ob_sequence(n, ks), dict(ops=n, kinds=[KINDS[k][0] + '?' + KINDS[k][1] for k in ks]), labels=('end', 'read', 'copy', 'add'), max_paths=6000000))
     for n in ((1, 2) if q else (1, 2, 3)):
-        out.append(Obligation('direct[%d]' % n, ob_direct(n), dict(ops=n, operations='+=, append_direct, extend_direct of 2-3, read', kinds='-I? -l? -f? /x/lib?.so (absolute)'),
-                              labels=('end', 'extend_direct') + (('read',) if n > 1 else ()), max_paths=6000000))
+        out.append(Obligation('direct[%d]' % n, ob_direct(n), dict(ops=n, operations='+=, append_direct, extend_direct of 2-3, extend_preserving_lflags of 2, read', kinds='-I? -l? -f? /x/lib?.so (absolute)'),
+                              labels=('end', 'extend_direct', 'preserving_lflags') + (('read',) if n > 1 else ()), max_paths=6000000))
     shapes = [(1, 1, 1, 1), (1, 2, 1, 1), (1, 1, 2, 1), (0, 1, 1, 2)] if q else [(1, 1, 1, 1), (1, 2, 1, 1), (1, 1, 2, 1), (0, 1, 1, 2), (2, 1, 1, 1), (1, 2, 2, 1), (1, 1, 1, 2), (2, 2, 2, 1)]
     for s in shapes:
         out.append(Obligation('lazy-step%s' % (s,), ob_lazy(*s), dict(container=s[0], pre=s[1], post=s[2], batch=s[3]), labels=('done',), max_paths=3000000))
